@@ -373,7 +373,7 @@ func (x *runner) rulesU(stream string, b []byte, mustErr bool) (nasType.QoSRules
 		return nil, nil, false
 	}
 	x.seenU[key] = true
-	in := append([]byte(nil), b...)
+	in := hk.ExactNil(b)
 	var q nasType.QoSRules
 	var err error
 	panicked, hang, pv := hk.CatchTimeout(2*time.Second, func() { err = q.UnmarshalBinary(in) })
@@ -406,7 +406,7 @@ func (x *runner) descsU(stream string, b []byte, mustErr bool) (nasType.QoSFlowD
 		return nil, nil, false
 	}
 	x.seenU[key] = true
-	in := append([]byte(nil), b...)
+	in := hk.ExactNil(b)
 	var q nasType.QoSFlowDescs
 	var err error
 	panicked, hang, pv := hk.CatchTimeout(2*time.Second, func() { err = q.UnmarshalBinary(in) })
@@ -467,7 +467,7 @@ func (x *runner) rulesM(stream string, q nasType.QoSRules) []byte {
 	// round trip
 	back, uerr, ran := x.rulesU(stream, out, false)
 	if !ran { // already parsed these octets: parse again for the comparison
-		uerr = back.UnmarshalBinary(append([]byte(nil), out...))
+		uerr = back.UnmarshalBinary(hk.ExactNil(out))
 	}
 	if uerr != nil || coqRules(back) != term {
 		x.fail("nasType.QoSRules.UnmarshalBinary", "roundtrip", term, fmt.Sprintf("Marshal = %x, Unmarshal of it = %s (err %v)", out, coqRules(back), uerr))
@@ -528,7 +528,7 @@ func (x *runner) descsM(stream string, q nasType.QoSFlowDescs) []byte {
 	}
 	back, uerr, ran := x.descsU(stream, out, false)
 	if !ran {
-		uerr = back.UnmarshalBinary(append([]byte(nil), out...))
+		uerr = back.UnmarshalBinary(hk.ExactNil(out))
 	}
 	if uerr != nil || coqDescs(back) != term {
 		x.fail("nasType.QoSFlowDescs.UnmarshalBinary", "roundtrip", term, fmt.Sprintf("Marshal = %x, Unmarshal of it = %s (err %v)", out, coqDescs(back), uerr))
@@ -798,7 +798,7 @@ func (x *runner) randDesc(wf bool) nasType.QoSFlowDesc {
 // ---------------------------------------------------------------- malformed streams
 
 func setLen(b []byte, p lenPos, v int) []byte {
-	c := append([]byte(nil), b...)
+	c := hk.ExactNil(b)
 	if p.size == 2 {
 		c[p.off], c[p.off+1] = byte(v>>8), byte(v)
 	} else {
@@ -823,7 +823,7 @@ func lenValues(p lenPos) []int {
 
 func (x *runner) mutate(b []byte) []byte {
 	g := x.r.Rng
-	c := append([]byte(nil), b...)
+	c := hk.ExactNil(b)
 	k := 1 + g.Intn(3)
 	for i := 0; i < k; i++ {
 		switch g.Intn(5) {
@@ -1131,7 +1131,7 @@ func run(r *hk.Run) {
 			continue
 		}
 		var q nasType.QoSRules
-		if q.UnmarshalBinary(append([]byte(nil), b...)) != nil {
+		if q.UnmarshalBinary(hk.ExactNil(b)) != nil {
 			continue
 		}
 		var pos []lenPos
@@ -1155,7 +1155,7 @@ func run(r *hk.Run) {
 			continue
 		}
 		var q nasType.QoSFlowDescs
-		if q.UnmarshalBinary(append([]byte(nil), b...)) != nil {
+		if q.UnmarshalBinary(hk.ExactNil(b)) != nil {
 			continue
 		}
 		var pos []lenPos
